@@ -225,6 +225,11 @@ def dom_cases():
         for t in (1.0 + 1e-9, 2.0, 3.0):
             out.append(("Noh2 geometry=%d t=%r (t must be less than 1)" % (g, t), (lambda g=g: Noh2(geometry=g)), r, t))
             out.append(("Noh2Cog geometry=%d t=%r (t must be less than 1)" % (g, t), (lambda g=g: Noh2Cog(geometry=g)), r, t))
+    # points inside the inert obstacle in the middle of a list of valid points (a mesh that covers the obstacle): the last
+    # element lists the records that are outside the domain - only those are judged
+    out.append(("Kenamond3 point inside the inert obstacle among valid points", lambda: Kenamond3(), np.array([[1.0, 0.0], [4.0, 2.0], [3.0, -4.0]]), 0.0, [0]))
+    out.append(("Kenamond3 (3-D) points inside the inert obstacle among valid points", lambda: Kenamond3(geometry=3, x_d=(0.0, 0.0, 5.0)),
+                np.array([[4.0, 2.0, 0.0], [1.0, 0.0, 1.0], [0.0, 3.0, -4.0], [0.5, 0.5, 0.5]]), 0.0, [1, 3]))
     return out
 
 
@@ -234,7 +239,9 @@ def gen_dom(rng, i, tier):
 
 def run_dom(ctx, p):
     cases = dom_cases()
-    lab, build, pts, t = cases[p["k"] % len(cases)]
+    case = cases[p["k"] % len(cases)]
+    lab, build, pts, t = case[:4]
+    judged = case[4] if len(case) > 4 else None
     name = lab.split()[0]
     try:
         s = ctx.quiet(build)
@@ -247,6 +254,8 @@ def run_dom(ctx, p):
     allfin = np.ones(len(sol), dtype=bool)
     for n in dep:
         allfin &= np.isfinite(np.asarray(sol[n], float))
+    if judged is not None:
+        allfin = allfin[np.asarray(judged, dtype=int)]
     ctx.observe("restr.domain", name, not allfin.any(), branch=lab, detail=dict(outcome="returned", records_entirely_finite=int(allfin.sum()),
                 sample={n: np.asarray(sol[n], float)[:3].tolist() for n in dep[:5]}))
 
@@ -491,7 +500,7 @@ UNITS = [
     Unit("kenamond2.times", gen_k2times, run_k2times, quick=72, thorough=720, min_nontrivial=60),
     Unit("blake.nonpd", gen_blake, run_blake, quick=15 * len(NONPD), thorough=15 * len(NONPD) * 6, min_nontrivial=100),
     Unit("restriction", gen_restr, run_restr, quick=(len(FLAT) + 12) * 2, thorough=(len(FLAT) + 12) * 12, min_nontrivial=len(FLAT)),
-    Unit("domain", gen_dom, run_dom, quick=60, thorough=60, min_nontrivial=45),
+    Unit("domain", gen_dom, run_dom, quick=64, thorough=64, min_nontrivial=45),
     Unit("finite", gen_fin, run_fin, quick=360, thorough=3600, min_nontrivial=250),
     Unit("series", gen_series, run_series, quick=90, thorough=1800, min_nontrivial=60),
 ]
